@@ -259,7 +259,7 @@ Proof.
   { rewrite get_all_filter in *. change (lower TRANSFER_ENCODING) with TRANSFER_ENCODING in *.
     cbn [strip_r hq_fields]. rewrite strip_expect_filter by discriminate. exact NoTE. }
   cbv zeta. split; [|split].
-  - rewrite (F_host (strip_r r)). cbn [strip_r hq_fields hq_authority].
+  - rewrite (F_host (strip_r r) AuthOk). cbn [strip_r hq_fields hq_authority].
     unfold hcontains. rewrite !field_values_filter, !get_all_filter. change (lower N_HOST_CAP) with N_HOST.
     rewrite !strip_expect_filter by discriminate. reflexivity.
   - rewrite (F_cookie (strip_r r)). cbn [strip_r hq_fields]. rewrite !get_all_filter.
